@@ -128,6 +128,9 @@ func genC15(r *simrt.Rand, tier string, idx int) *hx.Program {
 	if r.Pct(35) {
 		p.P["foo2"] = 1 // foo has two partitions
 	}
+	if r.Pct(40) {
+		p.P["noise"] = 1 // admin's reads run next to the judged calls
+	}
 	if r.Pct(30) {
 		p.P["curdigest"] = 1 // admin's view of the cursors is part of every digest (always for setcursor/fetchcursor)
 	}
@@ -709,6 +712,27 @@ func execC15(t *testing.T, prog *hx.Program, dec *simrt.Decider, verbose bool) *
 			}
 			settle()
 			before := digest(withCursors)
+			// noise: while the judged call runs, admin (who may do everything) fetches metadata a few times on
+			// other API goroutines. Nothing the authorisation path keeps between calls may leak from one caller's
+			// check into another's. The reads change nothing, so the digest comparison stands.
+			noiseDone := true
+			var noiseErr error
+			if prog.Param("noise", 0) == 1 && !nopolicy && (i+int(op.Arg(1, 0)))%2 == 0 {
+				noiseDone = false
+				napi := n.srv.api
+				h.s.Count("probe.calls_with_concurrent_admin_reads")
+				h.s.GoNode(n.node, "rpc:noise", func() {
+					defer func() { noiseDone = true }()
+					for k := 0; k < 3 && noiseErr == nil; k++ {
+						nctx, ncancel := env.ctx("admin", 5*time.Second, variant)
+						_, e := env.unary(napi, "FetchMetadata", nctx, &client.FetchMetadataRequest{})
+						ncancel()
+						if e != nil {
+							noiseErr = e
+						}
+					}
+				})
+			}
 			pausedBefore, nonEmptyBefore := false, false
 			if st := n.srv.metadata.GetStream(stream); st != nil {
 				if p := st.GetPartition(partOf(stream)); p != nil {
@@ -855,6 +879,12 @@ func execC15(t *testing.T, prog *hx.Program, dec *simrt.Decider, verbose bool) *
 			}
 			if h.oc.Trouble != "" {
 				return
+			}
+			if !noiseDone {
+				h.waitFor("noise", 20*time.Second, func() bool { return noiseDone })
+			}
+			if c15refusal(noiseErr) {
+				h.fail("C15/allowed-refused", "C15/allowed-refused:concurrent-read", "FetchMetadata by admin, running next to %s by %s on %s, was refused: %v", op.K, who, resource, noiseErr)
 			}
 			permitted := may(ident, resource, action)
 			changed := lastChange == ident+"|"+resource+"|"+action // the last reload was about this very right
